@@ -150,6 +150,7 @@ func runCase(c *Case) (nontrivial int, err error) {
 		responder = tcpRef
 	}
 	var stderrWanted []string
+	var verified []int // exchanges answered by the responder with a body that arrived intact
 	for i, r := range c.Reqs {
 		id := fmt.Sprintf("f%d", atomic.AddInt64(&seq, 1))
 		sc := r.Script
@@ -314,9 +315,12 @@ func runCase(c *Case) (nontrivial int, err error) {
 			return nontrivial, fmt.Errorf("%s: responder announced status %d, client got %d (%q)", desc, wantStatus, resp.Status, clipS(string(resp.Body)))
 		}
 		if r.Method != "HEAD" && wantStatus != 204 && wantStatus != 304 {
-			wb := fcgiref.Body(sc.BodyLen)
+			wb := fcgiref.BodySalted(sc.BodyLen, sc.Salt)
 			if !bytes.Equal(resp.Body, wb) {
 				return nontrivial, fmt.Errorf("%s: responder wrote %d body bytes, client got %d (common prefix %d)", desc, len(wb), len(resp.Body), commonPrefix(wb, resp.Body))
+			}
+			if sc.BodyLen > 0 && r.Method == "GET" {
+				verified = append(verified, i)
 			}
 		}
 		for _, kv := range r.RHeader {
@@ -346,6 +350,44 @@ func runCase(c *Case) (nontrivial int, err error) {
 				}
 			}
 			stderrWanted = append(stderrWanted, se)
+		}
+	}
+	// the exchanges that carried a body once more, several at a time and with different
+	// bodies of the same lengths: every client must get its own responder's bytes
+	if len(verified) > 0 {
+		var wg sync.WaitGroup
+		cerr := make(chan error, 8)
+		for g := 0; g < 6; g++ {
+			wg.Add(1)
+			go func(g int) {
+				defer wg.Done()
+				for k := range verified {
+					r := c.Reqs[verified[(k+g)%len(verified)]]
+					sc := r.Script
+					sc.Salt = 1 + g*4 + k%4
+					sc.Stderr, sc.StderrAt, sc.Burst = nil, nil, 0
+					id := fmt.Sprintf("f%d", atomic.AddInt64(&seq, 1))
+					hdr := [][2]string{{"X-Fcgi-Id", id}, {"X-Fcgi-Script", fcgiref.EncodeScript(&sc)}, {"Connection", "close"}}
+					resp, e := srv.Once(addr, "GET", srv.Request("GET", r.Target, "localhost", hdr, nil))
+					responder.Take(id)
+					if e != nil {
+						continue
+					}
+					if wb := fcgiref.BodySalted(sc.BodyLen, sc.Salt); !bytes.Equal(resp.Body, wb) {
+						select {
+						case cerr <- fmt.Errorf("GET %s with 5 other FastCGI requests in flight: responder wrote %d body bytes, client got %d that differ from byte %d on (bytes of another response?)", r.Target, len(wb), len(resp.Body), commonPrefix(wb, resp.Body)):
+						default:
+						}
+						return
+					}
+				}
+			}(g)
+		}
+		wg.Wait()
+		select {
+		case err := <-cerr:
+			return nontrivial, err
+		default:
 		}
 	}
 	// stderr goes to the error log (read after the drain barrier)
